@@ -87,8 +87,14 @@ def suite(kinds, nq=300, nt=3000, real_q=30, real_t=300, profiles=()):
         out.append(rnd(k, 'small', 'mix', nq, nt))
         if real_q: out.append(rnd(k, 'real', 'mix', real_q, real_t))
         for pr in profiles:
-            out.append(rnd(k, 'real', pr, max(real_q // 2, 8), real_t))
+            if k in COLL_KINDS + MERGE_KINDS:      # the adversarial profiles drive push / wake histories of collections
+                out.append(rnd(k, 'real', pr, max(real_q // 2, 8), real_t))
     return out
+
+def live(name, **consts):
+    c = {'Perpetual': True, 'NW': 1, 'MaxWakes': 1, 'WaitMul': 3, 'WaitAdd': 16}
+    c.update(consts)
+    return {'name': 'live_' + name, 'base': name, 'consts': c, 'spec': 'FairSpec', 'invariants': False, 'lines': ['PROPERTY Progress']}
 
 def mcs(*names, thorough=()):
     return [mc(n) for n in names] + [mc(n, tier='thorough') for n in thorough]
@@ -97,7 +103,7 @@ def gens(*names):
 
 PLAN = {
     'C01': {'extra': ['threads_engine'],
-            'mc': mcs('fub', 'fub_b1', 'fu', 'mb', 'mu', 'bu', 'ja', thorough=('fub_c3', 'fu4')),
+            'mc': mcs('fub', 'fub_b1', 'fu', 'mb', 'mu', 'bu', 'ja', thorough=('fub_c3', 'fu4')) + [live('fub'), live('mu', NC=2)],
             'gen': gens('fub', 'fu', 'mb', 'mu', 'bu'),
             'random': suite(COLL_KINDS + MERGE_KINDS, 200, 2000, 20, 200, profiles=('budget',)) + suite(ADAPT_KINDS + JOIN_KINDS, 150, 1500, 10, 100)},
     'C02': {'mc': mcs('fub', 'fub_b1', 'fub_init', 'fob', 'fo', 'fu', thorough=('fub_c3', 'fu4')),
@@ -132,7 +138,7 @@ PLAN = {
     'C12': {'mc': mcs('fub', 'fub_b1', 'fu', 'mb', 'mu'),
             'gen': gens('fub', 'fu', 'mb'),
             'random': suite(COLL_KINDS + MERGE_KINDS, 250, 2500, 20, 200, profiles=('stale',))},
-    'C13': {'mc': mcs('fub_perp', 'mb_perp', 'fu_perp', 'mu_perp'),
+    'C13': {'mc': mcs('fub_perp', 'mb_perp', 'fu_perp', 'mu_perp') + [live('fub'), live('mb', MaxPolls=2), live('mu', NC=2), live('fu')],
             'gen': gens('fub', 'mb'),
             'random': suite(COLL_KINDS + MERGE_KINDS, 150, 1500, 10, 100, profiles=('budget',))
                       + [rnd(k, 'small', 'starve', 60, 600) for k in COLL_KINDS + MERGE_KINDS]
